@@ -327,7 +327,7 @@ func ruleSortBeforeBuild(w *World, r *Report) {
 // ---- C20-C -----------------------------------------------------------------------------------------
 
 func ruleComparator(w *World, r *Report) {
-	r.Rule("C20-C", "PrioritizedSlice.Sort passes sort.Slice/SliceStable a less function that returns s[i].Priority < s[j].Priority (ascending; normalised).")
+	r.Rule("C20-C", "PrioritizedSlice.Sort sorts the receiver ascending by Priority: either sort.Slice/SliceStable with a less function that returns s[i].Priority < s[j].Priority (normalised), or slices.SortFunc/SortStableFunc with a three-way comparator that is cmp.Compare(a.Priority, b.Priority) or returns a negative constant exactly under a.Priority < b.Priority and a positive one exactly under a.Priority > b.Priority. A comparator that subtracts the priorities is reported: the difference overflows for priorities far apart (a 'first of all' priority such as math.MinInt then sorts last).")
 	ps := w.Named("util", "PrioritizedSlice")
 	sortFn := w.DeclaredMethod(ps, "Sort")
 	if sortFn == nil {
@@ -335,30 +335,47 @@ func ruleComparator(w *World, r *Report) {
 		return
 	}
 	var less *ssa.Function
-	usesSort := false
+	usesSort, threeWay := false, false
 	for _, b := range sortFn.Blocks {
 		for _, ins := range b.Instrs {
 			c, ok := ins.(*ssa.Call)
 			if !ok {
 				continue
 			}
-			if cal := c.Common().StaticCallee(); cal != nil && (cal.String() == "sort.Slice" || cal.String() == "sort.SliceStable") {
-				usesSort = true
-				if sl := throughCell(stripConv(stripChangeType(stripMakeIface(c.Common().Args[0])))); sl != ssa.Value(sortFn.Params[0]) {
-					r.Bad("PrioritizedSlice.Sort: sorted value", w.InstrPos(ins), "sorts something other than the receiver")
-				}
-				for _, f := range funcValues(c.Common().Args[1]) {
-					less = f
-				}
+			cal := c.Common().StaticCallee()
+			if cal == nil {
+				continue
+			}
+			name := cal.String()
+			isLess := name == "sort.Slice" || name == "sort.SliceStable"
+			isCmp := strings.HasPrefix(name, "slices.SortFunc") || strings.HasPrefix(name, "slices.SortStableFunc")
+			if !isLess && !isCmp {
+				continue
+			}
+			usesSort, threeWay = true, isCmp
+			if sl := throughCell(stripConv(stripChangeType(stripMakeIface(c.Common().Args[0])))); sl != ssa.Value(sortFn.Params[0]) {
+				r.Bad("PrioritizedSlice.Sort: sorted value", w.InstrPos(ins), "sorts something other than the receiver")
+			}
+			for _, f := range funcValues(c.Common().Args[1]) {
+				less = f
 			}
 		}
 	}
-	if !usesSort || less == nil {
-		r.Unknown("PrioritizedSlice.Sort", w.FnPos(sortFn), "no sort.Slice call with a closure found")
+	if !usesSort || less == nil || len(less.Params) < 2 {
+		r.Unknown("PrioritizedSlice.Sort", w.FnPos(sortFn), "no sort.Slice / slices.SortFunc call with a comparator closure found")
 		return
 	}
+	pa, pb := less.Params[len(less.Params)-2], less.Params[len(less.Params)-1]
+	// prioOf: v is the Priority of the element denoted by parameter p (an index into the receiver, or the element value)
 	prioOf := func(v ssa.Value, p *ssa.Parameter) bool {
-		u, ok := stripConv(v).(*ssa.UnOp)
+		v = stripConv(v)
+		if f, ok := v.(*ssa.Field); ok {
+			if st, ok := f.X.Type().Underlying().(*types.Struct); ok && st.Field(f.Field).Name() == "Priority" {
+				return f.X == ssa.Value(p)
+			}
+			return false
+		}
+		u, ok := v.(*ssa.UnOp)
 		if !ok || u.Op != token.MUL {
 			return false
 		}
@@ -367,28 +384,142 @@ func ruleComparator(w *World, r *Report) {
 			return false
 		}
 		_, f := fieldOfAddr(fa)
-		ia, ok := fa.X.(*ssa.IndexAddr)
-		return ok && f.Name() == "Priority" && ia.Index == ssa.Value(p)
+		if f.Name() != "Priority" {
+			return false
+		}
+		if ia, ok := fa.X.(*ssa.IndexAddr); ok {
+			return ia.Index == ssa.Value(p)
+		}
+		if al, ok := fa.X.(*ssa.Alloc); ok { // a struct parameter spilled to a local
+			for _, ref := range referrersOf(al) {
+				if st, ok := ref.(*ssa.Store); ok && st.Addr == ssa.Value(al) && st.Val == ssa.Value(p) {
+					return true
+				}
+			}
+		}
+		return false
 	}
-	ok := false
+	// ordering facts established by a condition: +1 means a.Priority < b.Priority, -1 means a.Priority > b.Priority
+	factOf := func(cond ssa.Value, truth bool) int {
+		bo, ok := cond.(*ssa.BinOp)
+		if !ok {
+			return 0
+		}
+		dir := 0
+		switch {
+		case prioOf(bo.X, pa) && prioOf(bo.Y, pb):
+			dir = 1
+		case prioOf(bo.X, pb) && prioOf(bo.Y, pa):
+			dir = -1
+		default:
+			return 0
+		}
+		switch bo.Op {
+		case token.LSS:
+			if truth {
+				return dir
+			}
+		case token.GTR:
+			if truth {
+				return -dir
+			}
+		case token.GEQ:
+			if !truth {
+				return dir
+			}
+		case token.LEQ:
+			if !truth {
+				return -dir
+			}
+		}
+		return 0
+	}
+	verdict, why := "", ""
+	nRet := 0
 	for _, b := range less.Blocks {
 		ret, isRet := b.Instrs[len(b.Instrs)-1].(*ssa.Return)
 		if !isRet || len(ret.Results) != 1 {
 			continue
 		}
-		bo, isB := ret.Results[0].(*ssa.BinOp)
-		if !isB {
-			continue
-		}
-		i, j := less.Params[0], less.Params[1]
-		if (bo.Op == token.LSS && prioOf(bo.X, i) && prioOf(bo.Y, j)) || (bo.Op == token.GTR && prioOf(bo.X, j) && prioOf(bo.Y, i)) {
-			ok = true
+		for _, leaf := range phiLeaves(ret.Results[0]) {
+			nRet++
+			if !threeWay {
+				bo, isB := leaf.(*ssa.BinOp)
+				if isB && ((bo.Op == token.LSS && prioOf(bo.X, pa) && prioOf(bo.Y, pb)) || (bo.Op == token.GTR && prioOf(bo.X, pb) && prioOf(bo.Y, pa))) {
+					continue
+				}
+				verdict, why = "bad", "the less function is not s[i].Priority < s[j].Priority: the slice is not sorted ascending by priority"
+				continue
+			}
+			switch x := stripConv(leaf).(type) {
+			case *ssa.BinOp:
+				if x.Op == token.SUB && ((prioOf(x.X, pa) && prioOf(x.Y, pb)) || (prioOf(x.X, pb) && prioOf(x.Y, pa))) {
+					verdict, why = "bad", "the comparator returns the difference of the two priorities: it overflows when they are more than MaxInt apart, so a priority such as math.MinInt sorts after ordinary ones"
+					continue
+				}
+				verdict, why = "bad", "the comparator's result is not an ordering of the priorities"
+			case *ssa.Call:
+				cal := x.Common().StaticCallee()
+				if cal != nil && strings.HasPrefix(cal.String(), "cmp.Compare") && len(x.Common().Args) == 2 {
+					if prioOf(x.Common().Args[0], pa) && prioOf(x.Common().Args[1], pb) {
+						continue
+					}
+					verdict, why = "bad", "cmp.Compare is not applied to (a.Priority, b.Priority): descending or unrelated order"
+					continue
+				}
+				if verdict == "" {
+					verdict, why = "unknown", "the comparator returns the result of a call this rule does not know"
+				}
+			case *ssa.Const:
+				c, _ := constInt(x)
+				if c == 0 {
+					continue
+				}
+				// the sign must agree with a dominating ordering fact (of the block the constant flows from)
+				want := 1
+				if c > 0 {
+					want = -1
+				}
+				okC := false
+				blocks := []*ssa.BasicBlock{b}
+				if phi, isPhi := ret.Results[0].(*ssa.Phi); isPhi {
+					blocks = nil
+					for pi, e := range phi.Edges {
+						if e == leaf {
+							blocks = append(blocks, phi.Block().Preds[pi])
+						}
+					}
+				}
+				for _, bb := range blocks {
+					for _, cf := range dominatingConds(bb) {
+						if factOf(cf.If.Cond, cf.Truth) == want {
+							okC = true
+						}
+					}
+					// the edge pred -> phi block itself
+					if iff, isIf := bb.Instrs[len(bb.Instrs)-1].(*ssa.If); isIf && len(blocks) == 1 {
+						_ = iff
+					}
+				}
+				if !okC {
+					verdict, why = "bad", fmt.Sprintf("the comparator returns %d on a path that has not established the matching order of the two priorities", c)
+				}
+			default:
+				if verdict == "" {
+					verdict, why = "unknown", "the comparator's result is not recognised"
+				}
+			}
 		}
 	}
-	if ok {
-		r.OK("PrioritizedSlice.Sort: comparator", w.FnPos(less), "less(i, j) = s[i].Priority < s[j].Priority")
-	} else {
-		r.Bad("PrioritizedSlice.Sort: comparator", w.FnPos(less), "the less function is not s[i].Priority < s[j].Priority: the slice is not sorted ascending by priority")
+	switch {
+	case nRet == 0:
+		r.Unknown("PrioritizedSlice.Sort: comparator", w.FnPos(less), "no return found")
+	case verdict == "bad":
+		r.Bad("PrioritizedSlice.Sort: comparator", w.FnPos(less), why)
+	case verdict == "unknown":
+		r.Unknown("PrioritizedSlice.Sort: comparator", w.FnPos(less), why)
+	default:
+		r.OK("PrioritizedSlice.Sort: comparator", w.FnPos(less), "ascending by Priority")
 	}
 }
 
